@@ -89,7 +89,7 @@ CHECKS = {
     'C15': dict(
         engine='E1 bounded-exhaustive script generation on the real binary',
         technique='bounded-exhaustive enumeration of argument lists x reference forms x frames, function names x headers x arities, source chains, and all bodies of status-relevant lines up to a length, executed by the real binary against a reference model of frames, persistence and status propagation',
-        text='All argument lists of length 0..2 (thorough 0..3) over {x, "a b", $, \'q\', empty; single arguments also a;b a|b >f a& backslash #c dquote backquote $(cmd)} x 11 reference forms ($0 $1 ${2} $3 $9 $@ "$@", glued and quoted forms) in a script frame and in a function frame; function names f, g-h, _k x both header spellings x arities 0..2 defined in the script or in a sourced file; source chains of depth 1..3 defining a variable, an alias, a function and changing directory; all bodies of up to 3 (4) lines over {succeeding command, failing command, exit 5, set -e, function call with status 4, source with status 2} at top level and inside an if body followed by a further command. The real binary must show the reference frames, persistence, record sequence and process exit status. Argument values also a;b a|b >f a& backslash #c (single arguments; thorough all lists); the same references inside the condition line of if / while.',
+        text='All argument lists of length 0..2 (thorough 0..3) over {x, "a b", $, \'q\', empty; single arguments also a;b a|b >f a& backslash #c dquote backquote $(cmd)} x 11 reference forms ($0 $1 ${2} $3 $9 $@ "$@", glued and quoted forms) in a script frame and in a function frame; function names f, g-h, _k x both header spellings x arities 0..2 defined in the script or in a sourced file; source chains of depth 1..3 defining a variable, an alias, a function and changing directory; all bodies of up to 3 (4) lines over {succeeding command, failing command, exit 5, set -e, function call with status 4, source with status 2} at top level, inside an if body and inside the body of a for over two words, each followed by a further command. The real binary must show the reference frames, persistence, record sequence and process exit status. Argument values also a;b a|b >f a& backslash #c (single arguments; thorough all lists); the same references inside the condition line of if / while.',
         note='Unquoted references may be split at blanks; functions are called after their definition.',
         ref='DESIGN.md §4 C15'),
     'C16': dict(
